@@ -41,6 +41,10 @@ inductive Op where
   | hash (msg : List Byte) (h : HRes)      -- command text message, id = hash of the text
   | reserve (w : Nat)             -- reserve a fresh request id (width class w) and activate it with a new registration
   | fini                          -- tear the dispatcher down
+  | drop                          -- release the handler table through the generic array interface
+  | tcopy (r : Reg)               -- copy-construct (through the content traits) the table element of registration r
+  | setDefault (id : Id)          -- C++ dispatch::set_default
+  | setError                      -- C++ dispatch::set_error(handler, new registration)
   deriving DecidableEq, Repr, Inhabited
 
 inductive Ret where
@@ -73,6 +77,21 @@ def book (dflt evid : Id) (h : HRes) : Int × Id :=
   let d' := if hasDefault f then evid' else dflt
   let f' := if hasDefault f then clrDefault f else f
   (Int.ofNat (if d' != 0 then setDefault f' else f'), d')
+
+/-- answer of the library's built-in fallback handler (`unknownEvent`, installed by `mpt_dispatch_init`) to an event
+    with id `evid` and message `msg`: an unknown id fails and gives up the default event (the id is cleared);
+    the default event without a message fails likewise; a message of type 0 just fails -/
+def builtinAnswer (evid : Id) (msg : Option (List Byte)) : HRes :=
+  if evid != 0 then ⟨3, true⟩
+  else match msg with
+    | none => ⟨3, false⟩
+    | some [] => ⟨0, false⟩
+    | some (_ :: _) => ⟨2, false⟩
+
+/-- how a history starts: without fallback, with the harness fallback (registration 0), or with the built-in one -/
+inductive Start where
+  | nofb | fb | builtin
+  deriving DecidableEq, Repr, Inhabited
 
 /- ---------- command text → id ---------- -/
 /-- C `char` is signed on the target: bytes ≥ 0x80 are sign-extended before the XOR -/
@@ -121,7 +140,8 @@ def cmdIds (msg : List Byte) : List (Option Id) :=
 /- ---------- abstract state ---------- -/
 structure Spec where
   live : List (Id × Reg)     -- the handlers currently registered: id ↦ registration
-  fb   : Option Reg          -- fallback handler
+  fb   : Option Reg          -- fallback handler (a registration)
+  bi   : Bool                -- no registration as fallback, but the library's built-in one
   dflt : Id                  -- default event id (0 = none)
   next : Reg                 -- number of the next registration
   regd : List Reg            -- every registration that was ever accepted
@@ -129,9 +149,9 @@ structure Spec where
 
 namespace Spec
 
-def init (fallback : Bool) : Spec :=
-  { live := [], fb := if fallback then some 0 else none, dflt := 0, next := 1,
-    regd := if fallback then [0] else [] }
+def init (start : Start) : Spec :=
+  { live := [], fb := if start = .fb then some 0 else none, bi := decide (start = .builtin), dflt := 0, next := 1,
+    regd := if start = .fb then [0] else [] }
 
 def lookup (sp : Spec) (id : Id) : Option Reg := (sp.live.find? (·.1 == id)).map (·.2)
 
@@ -178,12 +198,19 @@ def stepDeliver (sp : Spec) (r : Reg) (id : Id) (h : HRes) (out : Out) : Option 
   let b := book sp.dflt id h
   if out.ret = .val b.1 && out.log == [.call r id] then some { sp with dflt := b.2 } else none
 
-def stepEmit (sp : Spec) (id : Id) (h : HRes) (out : Out) : Option Spec :=
+/-- nobody registered and no registered fallback: the built-in fallback answers (nothing is logged), or the event is refused -/
+def stepUnhandled (sp : Spec) (id : Id) (msg : Option (List Byte)) (out : Out) : Option Spec :=
+  if sp.bi then
+    let b := book sp.dflt id (builtinAnswer id msg)
+    if out.ret = .val b.1 && out.log == [] then some { sp with dflt := b.2 } else none
+  else if isErr out.ret && out.log == [] then some sp else none
+
+def stepEmit (sp : Spec) (id : Id) (msg : Option (List Byte)) (h : HRes) (out : Out) : Option Spec :=
   match sp.target id with
   | some r => sp.stepDeliver r id h out
-  | none => if isErr out.ret && out.log == [] then some sp else none
+  | none => sp.stepUnhandled id msg out
 
-def stepHashId (sp : Spec) (cid : Option Id) (h : HRes) (out : Out) : Option Spec :=
+def stepHashId (sp : Spec) (msg : List Byte) (cid : Option Id) (h : HRes) (out : Out) : Option Spec :=
   match cid with
   | none => if out.ret = .val failDefault && out.log == [] then some sp else none
   | some id =>
@@ -195,7 +222,9 @@ def stepHashId (sp : Spec) (cid : Option Id) (h : HRes) (out : Out) : Option Spe
     | none =>
       match sp.fb with
       | some r => if out.log == [.call r id] && out.ret = .val h.val then some sp else none
-      | none => if out.ret = .val failDefault && out.log == [] then some sp else none
+      | none =>
+        if sp.bi then (if out.ret = .val (builtinAnswer id (some msg)).val && out.log == [] then some sp else none)
+        else if out.ret = .val failDefault && out.log == [] then some sp else none
 
 def step (sp : Spec) (op : Op) (out : Out) : Option Spec :=
   match op with
@@ -207,11 +236,11 @@ def step (sp : Spec) (op : Op) (out : Out) : Option Spec :=
     | none => if isErr out.ret && out.log == [] then some sp else none
   | .clearAll =>
     if isOk out.ret && sameSet out.log (sp.live.map (.fin ·.2)) then some { sp with live := [] } else none
-  | .emitId id h => sp.stepEmit id h out
+  | .emitId id h => sp.stepEmit id none h out
   | .emitMsg msg h =>
     match msg with
     | [] => if isErr out.ret && out.log == [] then some sp else none
-    | b :: _ => sp.stepEmit b.toUInt64 h out
+    | b :: _ => sp.stepEmit b.toUInt64 (some msg) h out
   | .emitNone h =>
     if sp.dflt = 0 then (if out.ret = .val 0 && out.log == [] then some sp else none)
     else match sp.lookup sp.dflt with
@@ -221,8 +250,8 @@ def step (sp : Spec) (op : Op) (out : Out) : Option Spec :=
         if isErr out.ret && out.log == [] then some { sp with dflt := 0 }
         else match sp.fb with
           | some r => sp.stepDeliver r sp.dflt h out
-          | none => none
-  | .hash msg h => (cmdIds msg).findSome? fun cid => sp.stepHashId cid h out
+          | none => if sp.bi then sp.stepUnhandled sp.dflt none out else none
+  | .hash msg h => (cmdIds msg).findSome? fun cid => sp.stepHashId msg cid h out
   | .reserve _ =>
     let r := sp.next
     match out.ret with
@@ -235,7 +264,23 @@ def step (sp : Spec) (op : Op) (out : Out) : Option Spec :=
     | .fault => none
   | .fini =>
     if isOk out.ret && sameSet out.log (sp.liveRegs.map .fin) then
-      some { sp with live := [], fb := none, dflt := 0 }
+      some { sp with live := [], fb := none, bi := false, dflt := 0 }
+    else none
+  | .drop =>
+    -- every registration of the table gets its end-of-life call through the content traits
+    if isOk out.ret && sameSet out.log (sp.live.map (.fin ·.2)) then some { sp with live := [] } else none
+  | .tcopy r =>
+    -- a live registration has a single owner: copying its element must be refused; nothing is invoked
+    if out.log == [] && (isErr out.ret || (isOk out.ret && !(sp.live.map (·.2)).contains r)) then some sp else none
+  | .setDefault id =>
+    match sp.lookup id with
+    | some _ => if isOk out.ret && out.log == [] then some { sp with dflt := id } else none
+    | none => if isErr out.ret && out.log == [] then some sp else none
+  | .setError =>
+    let r := sp.next
+    let old : List LogE := match sp.fb with | some o => [.fin o] | none => []
+    if isOk out.ret && out.log == old then
+      some { sp with fb := some r, bi := false, next := r + 1, regd := sp.regd ++ [r] }
     else none
 
 /-- run the monitor over a history and the outcomes observed for it -/
